@@ -34,3 +34,8 @@ def run(F, rep):
     rep.run(dt_seq.dnastring_view_ctors, F, rep, "C14.5")
     rep.run(dt_strings.packed_set_add, F, rep, "C14.5")
     rep.run(dt_strings.from_acgt_bytes_lemma, F, rep, "C14.2")
+    # "from bytes/ASCII/str": the lemma above takes the two vector kernels as given (what they do to each lane); these tables decide them —
+    # every byte value in every lane converts as the scalar table does, and packing keeps the lane order
+    rep.run(dt_strings.avx_kernels, F, rep, "C14.2", thorough=False)
+    rep.run(dt_strings.byte_tables, F, rep, "C14.2")
+    rep.run(dt_strings.from_str_lemmas, F, rep, "C14.2")
